@@ -161,6 +161,9 @@ def jobs_for(tier):
     add(params=[(2, 2), (2,)], mpd=2, merge=False, pf=1, sps=1, T=3, rebase=True, presence="symbolic", mode="raise", fixed=fixed, maxN=2)
     add(params=[(2, 2), (2,)], mpd=2, merge=False, pf=1, sps=1, T=2, rebase=True, presence="symbolic", mode="raise", fixed=fixed, precond="soap_eigh", maxN=2)
     add(params=[(2,), (2,)], mpd=2, merge=False, pf=2, sps=2, T=4, rebase=True, presence="symbolic", mode="raise", fixed=fixed, maxN=1)
+    # a block without any Kronecker factor (0-d parameter without merging; every dimension ignored) never fails and never counts as a failure
+    add(params=[(2,), ()], mpd=2, merge=False, pf=1, sps=1, T=3, rebase=True, mode="raise", fixed=fixed, maxN=1)
+    add(params=[(2, 2), (2,)], mpd=2, merge=False, pf=1, sps=1, T=2, rebase=True, mode="raise", fixed=fixed, precond="soap_eigh", ignored_dims=[0, 1], maxN=1)
     for md in ("nan", "inf", "nangrad"):
         add(params=[(2, 2), (2,)], mpd=2, merge=False, pf=1, sps=1, T=2, rebase=True, presence="symbolic", mode=md, fixed=fixed)
         add(params=[(2, 2), (2,)], mpd=2, merge=False, pf=1, sps=1, T=2, rebase=True, mode=md, fixed=fixed, precond="soap_qr")
